@@ -13,17 +13,19 @@ import (
 	"os"
 	"path/filepath"
 	"runtime"
+	"strings"
 	"sync"
 	"time"
 )
 
 type replayFile struct {
-	Harness  string            `json:"harness"`
-	Vars     map[string]uint64 `json:"vars"`
-	Ints     []int             `json:"ints"`
-	Thorough bool              `json:"thorough"`
-	Crash    map[string]string `json:"crash"` // post-crash directory image: simfs path -> hex
-	Outs     []int64           `json:"outs"`
+	Harness   string            `json:"harness"`
+	Vars      map[string]uint64 `json:"vars"`
+	Ints      []int             `json:"ints"`
+	Thorough  bool              `json:"thorough"`
+	Crash     map[string]string `json:"crash"` // post-crash directory image: simfs path -> hex
+	Outs      []int64           `json:"outs"`
+	CrashKind int               `json:"crash_kind"`
 }
 
 var (
@@ -124,7 +126,7 @@ func Assert(c bool, msg string) {
 // reported separately for counterexamples inside and outside every named region; natively it is a no-op.
 func Region(name string, cond bool) {}
 
-func EqBytes(a, b []byte) bool { return string(a) == string(b) }
+func EqBytes(a, b []byte) bool   { return string(a) == string(b) }
 func LessBytes(a, b []byte) bool { return string(a) < string(b) }
 
 // Ite is a non-forking conditional on integers.
@@ -134,11 +136,11 @@ func Ite(c bool, a, b int) int {
 	}
 	return b
 }
-func And(a, b bool) bool       { return a && b }
-func Or(a, b bool) bool        { return a || b }
-func Not(a bool) bool          { return !a }
-func Implies(a, b bool) bool   { return !a || b }
-func Reach(label string)       {}
+func And(a, b bool) bool     { return a && b }
+func Or(a, b bool) bool      { return a || b }
+func Not(a bool) bool        { return !a }
+func Implies(a, b bool) bool { return !a || b }
+func Reach(label string)     {}
 
 // Observe records an output of the code under test. The engine evaluates the same expression under the
 // solver's model; the two renderings must agree (differential validation of the translator).
@@ -226,6 +228,21 @@ func CrashRegion(mode int, f func(), outs ...*int) bool {
 		return false
 	}
 	root := Dir()
+	// the image replaces whatever the native run has put into the directory so far, except files whose image
+	// content is a token of the engine's encoding/json stub (the manifest): those keep their native content
+	keep := map[string]bool{}
+	for p, hx := range rp.Crash {
+		b, _ := hex.DecodeString(hx)
+		if rel, err := filepath.Rel("/db", p); err == nil && strings.HasPrefix(string(b), `{"verif_json_blob":`) {
+			keep[filepath.Join(root, rel)] = true
+		}
+	}
+	filepath.Walk(root, func(p string, info os.FileInfo, err error) error {
+		if err == nil && !info.IsDir() && !keep[p] {
+			os.Remove(p)
+		}
+		return nil
+	})
 	for p, hx := range rp.Crash {
 		b, err := hex.DecodeString(hx)
 		if err != nil {
@@ -236,6 +253,9 @@ func CrashRegion(mode int, f func(), outs ...*int) bool {
 			continue // files outside the database directory (temp files) are not part of the image
 		}
 		dst := filepath.Join(root, rel)
+		if keep[dst] {
+			continue
+		}
 		if err := os.MkdirAll(filepath.Dir(dst), 0755); err != nil {
 			panic(err)
 		}
@@ -250,6 +270,14 @@ func CrashRegion(mode int, f func(), outs ...*int) bool {
 	}
 	return true
 }
+
+// Durable states that everything written so far has reached stable storage (the setup phase of a harness
+// lies far enough in the past). Symbolically it moves every file's durable watermark to its end.
+func Durable() {}
+
+// CrashKind tells how the process died in the last CrashRegion: 0 it did not, 1 at an operation boundary,
+// 2 an in-flight write was torn, 3 unsynced data was trimmed (power loss).
+func CrashKind() int { load(); return rp.CrashKind }
 
 // Run executes a harness natively and reports the outcome; used by generated replay tests.
 func Run(h func()) (failed []string, skipped bool, panicked interface{}) {
